@@ -103,7 +103,7 @@ def gen_case(rng, tier):
                            "wasserstein_matching", "landscape"))
         op = {"client": k, "op": kind, "env": rng.choice(ENV), "ax": rng.choice(("own", "own", "own", "none"))}
         if kind == "plot_diagrams":
-            nd = rng.choice((1, 1, 2, 3))
+            nd = rng.choice((1, 1, 2, 3)) if rng.random() < 0.97 else rng.randint(9, 14)      # e.g. one diagram per sample
             op["dgms"] = [gen_dgm(rng, allow_empty=rng.random() < 0.3) for _ in range(nd)]
             op["as_list"] = nd > 1 or rng.random() < 0.5
             op["int_arrays"] = rng.random() < 0.3
